@@ -276,6 +276,12 @@ def guards(rep, prog):
         return
     maxlen = prog.consts.get("MAX_LENGTH", 256)
     seen = {}
+    if any(r["status"] == "inconclusive" for r in rows):
+        for r in rows:
+            if r["status"] == "inconclusive":
+                rep.inconc("Version::parse: " + r["error"].reason, r["error"].where)
+                break
+        return
     for r in rows:
         if r["status"] != "ok":
             continue
